@@ -444,6 +444,11 @@ def run(chk):
     progress_rule(chk, repo)
     agree_rule(chk, repo)
     batch_rule(chk, repo)
+    # whether a compressed body is accepted as complete must not depend on where the reads fell: the decoder's member-boundary flag is
+    # decided after the last input of a call was fed (rule shared with C09)
+    from rules import C09
+
+    chk.include(C09.run, ("C09.complete",), ("C09.complete", "C03.complete"))
 
 
 def latch_rule(chk, repo, rule="C03.latch"):
